@@ -471,4 +471,12 @@ pub mod verif_hooks {
     ) -> super::StreamingBody {
         super::StreamingBody::new(body, cap)
     }
+
+    /// `StreamingBody::into_bytes_mut` (what `UntypedBody` and `TypedBody`
+    /// buffer).
+    pub async fn streaming_body_into_bytes_mut(
+        body: super::StreamingBody,
+    ) -> Result<bytes::BytesMut, crate::HttpError> {
+        body.into_bytes_mut().await
+    }
 }
